@@ -77,23 +77,22 @@ static void il_hook(void) { (void)sendProbeMsg(il_src[1], il_dst[1], il_stB, &g_
 static void v_preempt_target(void) { il_hook(); }
 #endif
 
+static uint8_t il_ref[2][2][32]; static size_t il_reflen[2][2]; static unsigned il_refn[2]; static int il_phase;
 static void oracle_il(void *ctx, const uint8_t *f, size_t n) {
     int w = (ctx == (void *)&g_cfgB) ? 1 : 0;
     V_ASSERT(ctx == (void *)&g_cfgA || ctx == (void *)&g_cfgB, "C17: frames leave on a known interface");
-    const vcfg *c = w ? &g_cfgB : &g_cfgA;
-    const struct st_in *st = w ? &in.st2 : &in.st;
     unsigned s = il_sends[w]++;
-    if (n != 32) { V_ASSERT(0, "C02: Probe/Train/ACK are 32 bytes"); return; }
-    if (s == 0) {
-        bool ok = f[F_OP] == (il_kind[w] == 1 ? 4 : 3) && mac6_eq(f + F_EDST, il_dst[w].a) && mac6_eq(f + F_ESRC, il_src[w].a) &&
-                  mac6_eq(f + F_RSRC, c->mac) && mac6_eq(f + F_RDST, il_dst[w].a) && f[F_SEQ] == 0 && f[F_SEQ + 1] == 0 && f[F_TOS] == 0;
-        V_ASSERT(ok, "C17: the Probe/Train an interface transmits is its own descriptor's frame although the other interface's thread ran in between (no cross-talk through shared state)");
-    } else if (s == 1) {
-        bool ok = f[F_OP] == 5 && mac6_eq(f + F_RDST, st->mreal) && (mac6_eq(f + F_EDST, st->mapp) || mac6_eq(f + F_EDST, st->mreal)) &&
-                  mac6_eq(f + F_ESRC, c->mac) && mac6_eq(f + F_RSRC, c->mac) && be16(f + F_SEQ) == st->seq;
-        V_ASSERT(ok, "C17: the ACK an interface transmits is its own although the other interface's thread ran in between");
+    if (s >= 2) { V_ASSERT(il_phase == 1, "C17: no extra frames on an interface because another interface was served meanwhile"); return; }
+    if (il_phase == 1) {                   /* reference: each interface's emission alone */
+        il_reflen[w][s] = n; il_refn[w] = s + 1;
+        if (n == 32) memcpy(il_ref[w][s], f, 32);
     } else {
-        V_ASSERT(0, "C17: no extra frames on an interface because another interface was served meanwhile");
+        V_ASSERT(s < il_refn[w] && n == il_reflen[w][s], "C17: same frames on each interface as when it is served alone (count/length)");
+        if (n == 32 && il_reflen[w][s] == 32) {
+            bool same = true;
+            for (int k = 0; k < 32; k++) if (f[k] != il_ref[w][s][k]) same = false;
+            V_ASSERT(same, "C17: the frames an interface transmits are byte-identical to those it transmits when served alone, although the other interface's thread ran inside one of its platform calls (no cross-talk through shared state)");
+        }
     }
 }
 
@@ -112,6 +111,12 @@ void h_interleave(void) {
 #ifndef PREEMPT_AT
 #define PREEMPT_AT 0
 #endif
+    /* phase 1: each interface alone (reference frames) */
+    il_phase = 1;
+    (void)sendProbeMsg(il_src[0], il_dst[0], sa, &g_cfgA, il_pause[0], il_kind[0], true);
+    il_hook();
+    il_sends[0] = il_sends[1] = 0;
+    il_phase = 2;
 #ifdef V_PREEMPT
     g_portcalls = 0; g_preempt_at = PREEMPT_AT; g_preempt_armed = 1;          /* concrete per query: one inlined copy of B's call */
 #endif
@@ -121,6 +126,6 @@ void h_interleave(void) {
 #else
     il_hook();
 #endif
-    V_ASSERT(il_sends[0] == 2 && il_sends[1] == 2, "C17: each interface transmits exactly its own Probe/Train and ACK however the two threads interleave at platform calls");
+    V_ASSERT(il_sends[0] == il_refn[0] && il_sends[1] == il_refn[1], "C17: each interface transmits as many frames as when served alone, however the two threads interleave at platform calls");
     V_WITNESS("h_interleave end");
 }
